@@ -24,6 +24,7 @@ structure N (s : St) : Prop where
   m : ∀ j, j ≤ s.doneUntil → s.nCounted j ≤ s.nDoneDec j
   ti : ∀ tid t, s.thr tid = some t → TI s t
   uniq : ∀ i j ti tj, s.thr i = some ti → s.thr j = some tj → inSec ti → inSec tj → i = j
+  noAux : ∀ tid t, s.thr tid = some t → t.kind.isAux = false
 
 /-- the stepping thread is replaced by `t'` (same call, not an earlier stage); all other threads
 keep kind / stage / loc (a `notify` step may set their `notified` flag) -/
@@ -39,7 +40,7 @@ theorem N.mk' {s s' : St} (h : N s) {tid : Nat} {t t' : Thr} (ht : s.thr tid = s
     (hti : TI s' t')
     (hothers : ∀ j u, j ≠ tid → s.thr j = some u → TI s' u) : N s' := by
   have hin : inSec t' → inSec t := fun ⟨a, b⟩ => ⟨hk ▸ a, Nat.le_trans hst b⟩
-  refine ⟨hle, hcnt, hbeg, hm, ?_, ?_⟩
+  refine ⟨hle, hcnt, hbeg, hm, ?_, ?_, ?_⟩
   · intro j u' hu'
     by_cases hj : j = tid
     · subst hj; rw [hself] at hu'; cases hu'; exact hti
@@ -59,6 +60,11 @@ theorem N.mk' {s s' : St} (h : N s) {tid : Nat} {t t' : Thr} (ht : s.thr tid = s
     obtain ⟨ti0, hi0, si0⟩ := back i ti hi si
     obtain ⟨tj0, hj0, sj0⟩ := back j tj hj sj
     exact h.uniq i j ti0 tj0 hi0 hj0 si0 sj0
+  · intro j u' hu'
+    by_cases hj : j = tid
+    · subst hj; rw [hself] at hu'; cases hu'; rw [hk]; exact h.noAux j t ht
+    · obtain ⟨u, hu, e1, _, _⟩ := hoth j u' hj hu'
+      rw [e1]; exact h.noAux j u hu
 
 /-- other threads after `upd … tid (some t')` -/
 theorem oth_upd {s : St} {tid : Nat} {t' : Thr} :
@@ -80,10 +86,10 @@ theorem TI.next {s : St} {t : Thr} (h : TI s t) : TI s (nextInstr t) :=
    fun d hd => by simp [nextInstr] at hd, fun ⟨a, b⟩ => h.busy ⟨a, by simp [nextInstr] at b; omega⟩⟩
 
 /-- shapes of the good program -/
-theorem good_instr (c : WMCfg) (hc : c.countsFirst = true) (k : Kind) (st : Nat) (ins : Instr)
-    (h : (progOf c k)[st]? = some ins) :
+theorem good_instr (c : WMCfg) (hc : c.countsFirst = true) (k : Kind) (hka : k.isAux = false)
+    (st : Nat) (ins : Instr) (h : (progOf c k)[st]? = some ins) :
     (∀ i, ins = .add i true → k = .begin i ∧ st = 0) ∧
-    (∀ i, ins = .add i false → k.isBegin = false) ∧
+    (∀ i, ins = .add i false → k.isBegin = false ∧ k.isCount = false) ∧
     (∀ i, ins = .setLast i → k = .begin i ∧ st = 2) ∧
     (ins = .endBegin → k.isBegin = true ∧ st = 3) := by
   cases k with
@@ -99,7 +105,7 @@ theorem good_instr (c : WMCfg) (hc : c.countsFirst = true) (k : Kind) (st : Nat)
   | done j =>
     simp only [progOf] at h
     match st with
-    | 0 => simp at h; subst h; simp [Kind.isBegin]
+    | 0 => simp at h; subst h; simp [Kind.isBegin, Kind.isCount]
     | 1 => simp at h; subst h; simp
     | n + 2 => simp at h
   | wait j =>
@@ -112,6 +118,8 @@ theorem good_instr (c : WMCfg) (hc : c.countsFirst = true) (k : Kind) (st : Nat)
     match st with
     | 0 => simp at h; subst h; simp
     | n + 1 => simp at h
+  | count j => simp [Kind.isAux] at hka
+  | publish j => simp [Kind.isAux] at hka
 
 end NoKV.Conc.WM
 
@@ -138,7 +146,7 @@ theorem N.step_thr {c : WMCfg} (hc : c.countsFirst = true) {s s' : St} {tid : Na
   split at hs
   · cases hs
   · rename_i ins hins
-    have shape := good_instr c hc t.kind t.stage ins hins
+    have shape := good_instr c hc t.kind (h.noAux tid t ht) t.stage ins hins
     cases ins with
     | setLast i =>
       obtain ⟨hk, hst⟩ := shape.2.2.1 i rfl
@@ -149,7 +157,7 @@ theorem N.step_thr {c : WMCfg} (hc : c.countsFirst = true) {s s' : St} {tid : Na
       · exact Nat.le_trans h.le hmax
       · intro j
         show bumpBegun s t j = s.nCounted j
-        simp [bumpBegun, hst, h.begunEq]
+        rw [bumpBegun_off s t (by simp [hst]) j]; exact h.begunEq j
       · exact ⟨fun ⟨_, b⟩ => by simp [nextInstr, hst] at b, fun d hd => by simp [nextInstr] at hd,
           fun d hd => by simp [nextInstr] at hd, fun _ => hT.busy hsec⟩
       · intro j u hj hu
@@ -179,7 +187,8 @@ theorem N.step_thr {c : WMCfg} (hc : c.countsFirst = true) {s s' : St} {tid : Na
             · rw [upd_other _ _ _ _ hji, upd_other _ _ _ _ hji]; exact h.cntEq j hj
         · intro j
           show bumpBegun s t j = upd s.nCounted i (s.nCounted i + 1) j
-          simp only [bumpBegun, hk, Kind.isBegin, hst, and_self, if_true, Kind.idx]
+          rw [bumpBegun_on s t (by simp [hk, Kind.isBegin, hst])]
+          simp only [hk, Kind.idx]
           by_cases hji : j = i
           · subst hji; simp [h.begunEq]
           · rw [upd_other _ _ _ _ hji, upd_other _ _ _ _ hji]; exact h.begunEq j
@@ -197,7 +206,7 @@ theorem N.step_thr {c : WMCfg} (hc : c.countsFirst = true) {s s' : St} {tid : Na
           show upd s.nCounted i (s.nCounted i + 1) (d + 1) ≤ s.nDoneDec (d + 1)
           rw [upd_other _ _ _ _ hne]; exact (hU.cas d hd).2
       | false =>
-        have hnb := shape.2.1 i rfl
+        obtain ⟨hnb, hnc⟩ := shape.2.1 i rfl
         cases hs
         refine N.mk' (t' := nextInstr t) h ht (by simp [setThr]) oth_upd rfl (by simp [nextInstr]) h.le ?_ ?_ ?_ ?_ ?_
         · intro j hj
@@ -214,7 +223,7 @@ theorem N.step_thr {c : WMCfg} (hc : c.countsFirst = true) {s s' : St} {tid : Na
             · rw [upd_other _ _ _ _ hji, upd_other _ _ _ _ hji]; exact h.cntEq j hj
         · intro j
           show bumpBegun s t j = s.nCounted j
-          simp [bumpBegun, hnb, h.begunEq]
+          rw [bumpBegun_off s t (by simp [hnb, hnc]) j]; exact h.begunEq j
         · intro j hj
           show s.nCounted j ≤ upd s.nDoneDec i (s.nDoneDec i + 1) j
           by_cases hji : j = i
@@ -326,15 +335,16 @@ namespace NoKV.Conc.WM
 open NoKV.Conc
 
 theorem N.init : N initSt := by
-  refine ⟨Nat.le_refl _, ?_, ?_, ?_, ?_, ?_⟩
+  refine ⟨Nat.le_refl _, ?_, ?_, ?_, ?_, ?_, ?_⟩
   · intro j _; simp [initSt]
   · intro j; rfl
   · intro j _; simp [initSt]
   · intro tid t ht; simp [initSt] at ht
   · intro i j ti tj hi; simp [initSt] at hi
+  · intro tid t ht; simp [initSt] at ht
 
 /-- a freshly spawned thread: every other thread is untouched -/
-theorem N.spawn {s : St} (h : N s) (tid : Nat) (k : Kind) (busy' : Bool) (hfree : s.thr tid = none)
+theorem N.spawn {s : St} (h : N s) (tid : Nat) (k : Kind) (hka : k.isAux = false) (busy' : Bool) (hfree : s.thr tid = none)
     (hti : TI { s with sectionBusy := busy' } ({ kind := k } : Thr))
     (hbusy : ∀ j u, s.thr j = some u → inSec u → busy' = true)
     (huniq : inSec ({ kind := k } : Thr) → ∀ j u, s.thr j = some u → ¬ inSec u) :
@@ -345,7 +355,7 @@ theorem N.spawn {s : St} (h : N s) (tid : Nat) (k : Kind) (busy' : Bool) (hfree 
     by_cases hj : j = tid
     · subst hj; simp at hu; exact Or.inl ⟨rfl, hu.symm⟩
     · rw [upd_other _ _ _ _ hj] at hu; exact Or.inr ⟨hj, hu⟩
-  refine ⟨h.le, h.cntEq, h.begunEq, h.m, ?_, ?_⟩
+  refine ⟨h.le, h.cntEq, h.begunEq, h.m, ?_, ?_, ?_⟩
   · intro j u hu
     rcases hget j u hu with ⟨_, rfl⟩ | ⟨_, hu'⟩
     · exact hti.of_eq rfl rfl rfl rfl
@@ -357,6 +367,10 @@ theorem N.spawn {s : St} (h : N s) (tid : Nat) (k : Kind) (busy' : Bool) (hfree 
     · exact absurd sj (huniq si j tj hj')
     · exact absurd si (huniq sj i ti hi')
     · exact h.uniq i j ti tj hi' hj' si sj
+  · intro j u hu
+    rcases hget j u hu with ⟨_, rfl⟩ | ⟨_, hu'⟩
+    · exact hka
+    · exact h.noAux j u hu'
 
 theorem N.preserved {c : WMCfg} (hc : c.countsFirst = true) {s s' : St} {a : Act} (h : N s)
     (hs : WM.step c true s a = some s') : N s' := by
@@ -368,7 +382,7 @@ theorem N.preserved {c : WMCfg} (hc : c.countsFirst = true) {s s' : St} {a : Act
       obtain ⟨hfree, _, hct⟩ := hcond
       obtain ⟨hb, hlt⟩ := hct trivial
       cases hs
-      refine N.spawn h tid (.begin i) true hfree ?_ (fun _ _ _ _ => rfl) ?_
+      refine N.spawn h tid (.begin i) rfl true hfree ?_ (fun _ _ _ _ => rfl) ?_
       · exact ⟨fun _ => hlt, by simp, by simp, fun _ => rfl⟩
       · intro _ j u hu su
         have := (h.ti j u hu).busy su
@@ -379,7 +393,7 @@ theorem N.preserved {c : WMCfg} (hc : c.countsFirst = true) {s s' : St} {a : Act
     split at hs
     · rename_i hcond
       cases hs
-      have := N.spawn h tid (.done i) s.sectionBusy hcond.1
+      have := N.spawn h tid (.done i) rfl s.sectionBusy hcond.1
         ⟨fun ⟨a, _⟩ => by simp [Kind.isBegin] at a, by simp, by simp, fun ⟨a, _⟩ => by simp [Kind.isBegin] at a⟩
         (fun j u hu su => (h.ti j u hu).busy su) (fun ⟨a, _⟩ => by simp [Kind.isBegin] at a)
       exact this
@@ -389,7 +403,7 @@ theorem N.preserved {c : WMCfg} (hc : c.countsFirst = true) {s s' : St} {a : Act
     split at hs
     · rename_i hcond
       cases hs
-      have := N.spawn h tid (.wait i) s.sectionBusy hcond
+      have := N.spawn h tid (.wait i) rfl s.sectionBusy hcond
         ⟨fun ⟨a, _⟩ => by simp [Kind.isBegin] at a, by simp, by simp, fun ⟨a, _⟩ => by simp [Kind.isBegin] at a⟩
         (fun j u hu su => (h.ti j u hu).busy su) (fun ⟨a, _⟩ => by simp [Kind.isBegin] at a)
       exact this
@@ -399,10 +413,20 @@ theorem N.preserved {c : WMCfg} (hc : c.countsFirst = true) {s s' : St} {a : Act
     split at hs
     · rename_i hcond
       cases hs
-      have := N.spawn h tid .adv s.sectionBusy hcond
+      have := N.spawn h tid .adv rfl s.sectionBusy hcond
         ⟨fun ⟨a, _⟩ => by simp [Kind.isBegin] at a, by simp, by simp, fun ⟨a, _⟩ => by simp [Kind.isBegin] at a⟩
         (fun j u hu su => (h.ti j u hu).busy su) (fun ⟨a, _⟩ => by simp [Kind.isBegin] at a)
       exact this
+    · cases hs
+  | count tid i =>
+    simp only [WM.step] at hs
+    split at hs
+    · rename_i hcond; exact absurd hcond.2.1 (by simp)
+    · cases hs
+  | publish tid i =>
+    simp only [WM.step] at hs
+    split at hs
+    · rename_i hcond; exact absurd hcond.2 (by simp)
     · cases hs
   | run tid =>
     simp only [WM.step] at hs
